@@ -346,7 +346,9 @@ def t3Format (cfg : Cfg) (t : T3Tag) (wipe : Bool) : Prog :=
   .call (t3p true) (rdTok 0 1) .ok .tagErr (fun _ => t3Search cfg t wipe 17 0 0x10000) (fin .false_)
 
 /-- program of operation `op` on tag family `fam` -/
-def prog (cfg : Cfg) (fam op : String) (l : Phases) (v : Val) (nret : Nat) : Option Prog :=
+def prog (cfg : Cfg) (tlv : Bool) (fam op : String) (l : Phases) (v : Val) (nret : Nat) : Option Prog :=
+  -- `tlv`: tt1.read_tlv catches the command error for the whole TLV (repair of C08), not only for its first byte
+  let tlvPol : Val → Pol := fun r => if tlv then .ret r else .raise
   let c12 := fun pol ss k => chain cfg t12 .tagErr pol ss k
   let c3 := fun pol ss k => chain cfg (t3p true) .tagErr pol ss k
   let c3p := fun pol ss k => chain cfg (t3p false) .tagErr pol ss k
@@ -371,11 +373,12 @@ def prog (cfg : Cfg) (fam op : String) (l : Phases) (v : Val) (nret : Nat) : Opt
     some (c12 .skip (ph l 0) fun _ =>
             c12 (.goto fun _ => c12 .skip (ph l 2) (fin .list)) (ph l 1) fun _ => c12 .skip (ph l 2) (fin .list))
   -- Type 1
-  | "t1", "ndef" => some (c12 (.ret .none) (ph l 0) fun _ => c12 .raise (ph l 1) (fin .ndef))
+  | "t1", "ndef" => some (c12 (.ret .none) (ph l 0) fun _ => c12 (tlvPol .none) (ph l 1) (fin .ndef))
   | "t1", "write" => some (c12 .raise (ph l 0) (fin .unit))
   | "t1", "present" => some (c12 (.ret .false_) (ph l 0) (fin v))
   | "t1", "format" => some (c12 .raise (ph l 0) (fin .true_))
-  | "t1", "protect" => some (c12 (.ret .false_) (ph l 0) fun _ => c12 .raise (ph l 1) (fin .true_))
+  | "t1", "protect" =>
+    some (c12 (.ret .false_) (ph l 0) fun _ => c12 (tlvPol .false_) (ph l 1) fun _ => c12 .raise (ph l 2) (fin .true_))
   | "t1", "dump" =>
     some (c12 .raise (ph l 0) fun _ => c12 (.ret .list) (ph l 1) fun _ => c12 (.goto (fin .list)) (ph l 2) (fin .list))
   -- Type 3
